@@ -5,10 +5,12 @@ taken after every step of copy / copy_like / link / unlink / proxy / mutate hist
 behaviourally (mutate one side, observe the other).
 """
 import copy as _copy
+import contextlib
+import io
 import pickle
 import numpy as np
 import thermosteam as tmo
-from vt.core import case_hash
+from vt.core import case_hash, close
 from vt.common import thermo_of, build_stream, phase_ledger, stream_invariant
 
 PID = 'C13'
@@ -20,12 +22,19 @@ RULE = ('(1) copy(): equal state, then 3-10 random mutations of either side leav
         'incl. copy_like / mix_from a donor and mol[:]=} against a model sharing graph, values checked after every op and all ordered pairs probed behaviourally; (6) copy(thermo=other package), copy.copy, copy of a phase view, '
         'copy of an ID-carrying stream; (7) copy_flow(remove=False) all / IDs / exclude / phase forms onto single and multi targets, copy_thermal_condition, copy_phase; (8) link_with across kinds / phase sets / packages '
         '(refusal leaves both untouched, otherwise the linked parts are equal and shared); (9) pickles of empty / one-phase-multi / S,L labels / units+total_flow / proxy / phase view / linked pair / indexers / '
-        'SeriesReaction / ReactionSystem / ReactionItem / edited X / user-defined and modified chemicals / aliases and groups / every cucumber class; (10) copy_like onto itself, between linked streams, onto and from phase views')
+        'SeriesReaction / ReactionSystem / ReactionItem / edited X / user-defined and modified chemicals / aliases and groups / every cucumber class; (10) copy_like onto itself, between linked streams, onto and from phase views. '
+        'Third stream of cases (own generator, run last): (11) flows on EVERY basis: streams whose mass / volumetric views already exist (imass, mass, ivol, vol, get_flow, show(flow=kg/hr), constructor units=, phase views and their '
+        'imass / ivol) go through 1-3 rounds of copy_like / set_data(get_data()) / copy_flow / imol.copy_like / imass.copy_like from two sources over the kind x package x phase-set matrix (then copy / pickle of the target), '
+        'through copy / copy.copy / pickle / proxy / flow_proxy, and through link_with(flags) / copy_like onto a linked side / unlink of either side; after every step every public reading (imol, imass, ivol, mass, vol, get_flow in kg/hr and '
+        'm3/hr, F_mass, F_vol, and the same through every phase view incl. its T, P) must agree with the molar rows (volumes: with a fresh stream in the same state), and 0-4 flows written per step on the mass / volumetric / molar basis through '
+        'the indexer, a phase view, set_flow or the data array must land in the stream written to and in its flow-sharing partner only')
 MIN_NONTRIVIAL = {'quick': 500, 'thorough': 20000}
 ASSUMPTIONS = ['class-changing conversions on one side of a link are excluded from sharing sequences (they replace the shared indexer by design; C12)',
                'copy_like target lists every chemical of the source',
                'in link histories the donors of copy_like / mix_from and all three streams have the same kind and phase set (a phase expansion replaces the shared rows by design; C12)',
-               'link_with on a stream that is a proxy of (or has a proxy among) the other streams: the sharing of those third parties is not judged (no documented semantics); the linked pair itself is']
+               'link_with on a stream that is a proxy of (or has a proxy among) the other streams: the sharing of those third parties is not judged (no documented semantics); the linked pair itself is',
+               'flows on every basis: volumetric readings are judged against a fresh stream built in the same state, and not at all when that stream cannot evaluate them (no molar volume model for a chemical in a phase); '
+               'the class of a one-phase MultiStream after set_data / pickle is not judged; raw data vectors held from before an operation are not judged, only what the stream hands out afterwards']
 
 PKGS = [('Water', 'Ethanol', 'Methanol', 'Octane', 'CO2'), ('CO2', 'Octane', 'Water', 'Methanol', 'Ethanol'), ('Ethanol', 'Water')]
 PH = 'slgSL'
@@ -41,7 +50,11 @@ def required(tier):
             'pickle2', 'pickle2:empty', 'pickle2:M1', 'pickle2:labels', 'pickle2:units', 'pickle2:proxy', 'pickle2:view', 'pickle2:linked-pair', 'pickle2:indexer', 'pickle2:isplit',
             'pickle2:SeriesReaction', 'pickle2:ReactionSystem', 'pickle2:ReactionItem', 'pickle2:X-edited', 'pickle2:Chemical-blank', 'pickle2:Chemical-user', 'pickle2:Chemical-Hf',
             'pickle2:Chemicals-alias', 'pickle2:Chemicals-group', 'pickle2:Thermo-custom', 'pickle2:IdealThermo', 'pickle2:handles',
-            'copy_like2', 'copy_like2:self', 'copy_like2:linked', 'copy_like2:view-target', 'copy_like2:view-source', 'copy_like2:own-view']
+            'copy_like2', 'copy_like2:self', 'copy_like2:linked', 'copy_like2:view-target', 'copy_like2:view-source', 'copy_like2:own-view',
+            'basis', 'basis:xfer', 'basis:dup', 'basis:link', 'basis:op/copy_like', 'basis:op/set_data', 'basis:op/copy_flow', 'basis:op/imol.copy_like', 'basis:op/imass.copy_like',
+            'basis:same-layout-cached-target', 'basis:ctor-units', 'basis:tail', 'basis:dup/copy', 'basis:dup/copy.copy', 'basis:dup/pickle', 'basis:dup/proxy', 'basis:dup/flow_proxy',
+            'basis:link/mid-copy_like', 'basis:link/unlink', 'basis:warm/imass', 'basis:warm/ivol', 'basis:warm/show', 'basis:warm/get_flow', 'basis:warm/view-imass', 'basis:warm/view-ivol',
+            'basis:write/mass-indexer', 'basis:write/mass-view', 'basis:write/mass-set_flow', 'basis:write/mass-data', 'basis:write/vol-indexer', 'basis:write/vol-view', 'basis:write/mol-indexer']
 
 
 def snap(s):
@@ -1220,8 +1233,425 @@ def gen_case2(rng):
     return {'t': 'copy_like2', 'form': form, 'm': m, 'ph': phi, 'tgt': tgt}
 
 
+# ======================================================================================================================
+# third stream of cases (own generator gen_case3, drawn after the second; the first two streams are left identical):
+# the flows of a stream on EVERY basis. The mass / volumetric indexers of a stream (imass, mass, ivol, vol, get_flow / set_flow in kg/hr or m3/hr, the
+# constructor's units=, show(flow=...), and the same through the phase views ms['l']) are live views that the stream caches once made; copies, links and
+# pickles must leave the flows read and written through them those of the stream itself.
+
+UNITS = {'mol': 'kmol/hr', 'mass': 'kg/hr', 'vol': 'm3/hr'}
+WARMS = ('imass', 'mass', 'ivol', 'vol', 'get_flow', 'show', 'F', 'view', 'view-imass', 'view-ivol')
+CACHING = ('imass', 'mass', 'ivol', 'vol', 'get_flow', 'show')
+
+
+def kind_of(x):
+    if not isinstance(x, tmo.MultiStream): return 'S'
+    return 'M' if len(x.phases) >= 2 else 'M1'
+
+
+def build_b(d):
+    """build_stream, or (d['units'] given) through the constructor with the flows in those units: the mass view exists from the start."""
+    u = d.get('units')
+    if not u: return build_stream(d, PKGS)
+    th = thermo_of(PKGS[d['pkg']]); ids = th.chemicals.IDs
+    if d['kind'] == 'S':
+        return tmo.Stream(None, phase=d['phase'], T=d['T'], P=d['P'], thermo=th, units=u, **{i: v for i, v in zip(ids, d['flows']) if v})
+    return tmo.MultiStream(None, phases=tuple(d['phases']), T=d['T'], P=d['P'], thermo=th, units=u,
+                           **{ph: [(i, v) for i, v in zip(ids, row) if v] for ph, row in d['flows'].items() if any(row)})
+
+
+def warm(x, forms, rec):
+    """use the stream the way a user does before the operation under test: the views made here are cached by the stream."""
+    multi = isinstance(x, tmo.MultiStream)
+    for f in forms:
+        try:
+            if f == 'imass': x.imass
+            elif f == 'mass': x.mass
+            elif f == 'ivol': x.ivol
+            elif f == 'vol': x.vol
+            elif f == 'get_flow': x.get_flow('kg/hr')
+            elif f == 'show':
+                with contextlib.redirect_stdout(io.StringIO()): x.show(flow='kg/hr')
+            elif f == 'F': x.F_mass; x.F_vol
+            elif multi:
+                for ph in x.phases:
+                    v = x[ph]
+                    if f == 'view-imass': v.imass
+                    elif f == 'view-ivol': v.ivol
+        except Exception:
+            rec.hit('basis:warm-up-raised')      # e.g. no molar volume model for a chemical in this phase: nothing decided here
+        rec.hit('basis:warm/' + f)
+
+
+def ref_of(x):
+    """a fresh stream in the state of x (raw molar rows, phases, T, P): what any basis must read."""
+    ch = x.chemicals; ID = dict(zip(ch.CASs, ch.IDs))
+    if isinstance(x, tmo.MultiStream):
+        r = tmo.MultiStream(None, phases=tuple(x.phases), T=x.T, P=x.P, thermo=x.thermo)
+        for (ph, c), v in phase_ledger(x).items(): r.imol[ph, ID[c]] = v
+    else:
+        r = tmo.Stream(None, phase=x.phase, T=x.T, P=x.P, thermo=x.thermo)
+        for (ph, c), v in phase_ledger(x).items(): r.imol[ID[c]] = v
+    return r
+
+
+def unit_volume(x, ph, i):
+    """m3 per kmol of chemical i in phase ph at the T, P of x, from a fresh single-phase stream."""
+    r = tmo.Stream(None, phase=ph, T=x.T, P=x.P, thermo=x.thermo)
+    r.imol[i] = 1.0
+    return float(r.ivol[i])
+
+
+def arr_close(got, exp, rel):
+    if got.shape != exp.shape: return False
+    return bool(((np.abs(got - exp) <= rel * np.maximum(np.abs(got), np.abs(exp))) | (np.isnan(got) & np.isnan(exp))).all())
+
+
+def check_bases(x, rec, stage, tag, vol=True):
+    """every public reading of the flows of x (molar, mass, volumetric; whole stream and phase views) agrees with its molar rows.
+    Whole-array readings cover every (phase, chemical) cell; keyed readings cover the non-zero cells (at most 5) and one empty cell."""
+    ch = x.chemicals; ids = ch.IDs; cas = ch.CASs; MW = np.asarray(ch.MW, float)
+    multi = isinstance(x, tmo.MultiStream)
+    phs = tuple(x.phases) if multi else (x.phase,)
+    L = phase_ledger(x)
+    col = {c: j for j, c in enumerate(cas)}; row = {ph: r for r, ph in enumerate(phs)}
+    mol = np.zeros((len(phs), len(ids)))
+    for (ph, c), v in L.items(): mol[row[ph], col[c]] = v
+    mass = mol * MW
+    cells = [(row[ph], col[c]) for (ph, c), v in sorted(L.items()) if v][:5]
+    cells += [(r, j) for r in range(len(phs)) for j in range(len(ids)) if not mol[r, j]][:1]
+    k = (lambda r, j: (phs[r], ids[j])) if multi else (lambda r, j: ids[j])
+    where = f'{stage}; {tag}'
+    arrays = []; keyed = []
+    try:
+        arrays.append(('imol-data', np.atleast_2d(np.asarray(x.imol.data.to_array(), float)), mol))
+        im = x.imass
+        arrays.append(('mass-data', np.atleast_2d(np.asarray(im.data.to_array(), float)), mass))
+        keyed.append(('imol', [float(x.imol[k(r, j)]) for r, j in cells], mol))
+        keyed.append(('imass', [float(im[k(r, j)]) for r, j in cells], mass))
+        keyed.append(('get_flow', [float(x.get_flow('kg/hr', k(r, j))) for r, j in cells], mass))
+        if multi:
+            vs = [x[ph] for ph in phs]
+            arrays.append(('view-mol', np.array([np.asarray(v.mol.to_array(), float) for v in vs]), mol))
+            arrays.append(('view-mass', np.array([np.asarray(v.mass.to_array(), float) for v in vs]), mass))
+            keyed.append(('view-imass', [float(vs[r].imass[ids[j]]) for r, j in cells], mass))
+            tp = [(ph, v.T, v.P, v.phase) for ph, v in zip(phs, vs)]
+        else:
+            arrays.append(('mass', np.atleast_2d(np.asarray(x.mass.to_array(), float)), mass))
+        Fm = float(x.F_mass)
+    except Exception as e:
+        rec.exception('basis', e, what=f'reading the flows of a stream ({where}) raised {type(e).__name__}: {str(e)[:150]}'); return
+    # a phase view that does not even show the molar row of its phase (or the T, P of its stream) is bound to something else: that is reported once
+    # (read-view-mol / read-view-TP); its mass and volumetric readings are consequences and are not reported on top
+    skip = ()
+    if multi:
+        if not arr_close([g for f_, g, e_ in arrays if f_ == 'view-mol'][0], mol, 1e-12): skip = ('view-mass', 'view-imass', 'view-vol', 'view-ivol')
+        elif [q for q in tp if q[1] != x.T or q[2] != x.P]: skip = ('view-vol', 'view-ivol')
+    for form, got, exp in arrays:
+        if form in skip: continue
+        ok = arr_close(got, exp, 1e-12)
+        rec.check(ok, 'basis', f'read-{form}/{tag}', f'{form} of a stream ({where}) does not show its own flows: read {got.tolist()}, its molar rows{" x MW" if exp is mass else ""} are {exp.tolist()} (phases {phs})')
+    for form, got, exp in keyed:
+        if form in skip: continue
+        bad = [(k(r, j), g, float(exp[r, j])) for (r, j), g in zip(cells, got) if not close(g, float(exp[r, j]), 1e-12)]
+        rec.check(not bad, 'basis', f'read-{form}/{tag}', f'{form} of a stream ({where}) does not show its own flows (key, read, molar row{" x MW" if exp is mass else ""}): {bad}')
+    tot = float(mass.sum())
+    rec.check(close(Fm, tot, 1e-9), 'basis', f'read-F_mass/{tag}', f'F_mass of a stream ({where}) is {Fm}, its molar rows give {tot}')
+    if multi:
+        bad = [q for q in tp if q[1] != x.T or q[2] != x.P or q[3] != q[0]]
+        rec.check(not bad, 'basis', f'read-view-TP/{tag}', f'phase views of a multi-phase stream ({where}) at T, P = {x.T}, {x.P} show (phase, T, P, phase): {bad}')
+    if not vol: return
+    # volumetric readings against a fresh stream in the same state
+    try:
+        ref = ref_of(x)
+        rv = np.atleast_2d(np.asarray(ref.ivol.data.to_array(), float))
+        rF = float(ref.F_vol)
+    except Exception:
+        rec.hit('basis:vol-unavailable'); return     # no molar volume model for a chemical in a phase: volumetric flows are not defined for this state
+    arrays = []; keyed = []
+    try:
+        iv = x.ivol
+        arrays.append(('vol-data', np.atleast_2d(np.asarray(iv.data.to_array(), float))))
+        keyed.append(('ivol', [float(iv[k(r, j)]) for r, j in cells]))
+        keyed.append(('get_flow-m3', [float(x.get_flow('m3/hr', k(r, j))) for r, j in cells]))
+        if multi:
+            arrays.append(('view-vol', np.array([np.asarray(v.vol.to_array(), float) for v in vs])))
+            keyed.append(('view-ivol', [float(vs[r].ivol[ids[j]]) for r, j in cells]))
+        Fv = float(x.F_vol)
+    except Exception as e:
+        rec.exception('basis', e, what=f'reading the volumetric flows of a stream ({where}) raised {type(e).__name__}: {str(e)[:150]} (a fresh stream in the same state reads them)'); return
+    for form, got in arrays:
+        if form in skip: continue
+        ok = arr_close(got, rv, 1e-9)
+        rec.check(ok, 'basis', f'read-{form}/{tag}', f'{form} of a stream ({where}) differs from that of a fresh stream in the same state: {got.tolist()} vs {rv.tolist()} (phases {phs})')
+    for form, got in keyed:
+        if form in skip: continue
+        bad = [(k(r, j), g, float(rv[r, j])) for (r, j), g in zip(cells, got) if not close(g, float(rv[r, j]), 1e-9)]
+        rec.check(not bad, 'basis', f'read-{form}/{tag}', f'{form} of a stream ({where}) differs from that of a fresh stream in the same state (key, read, fresh): {bad}')
+    rec.check(close(Fv, rF, 1e-9), 'basis', f'read-F_vol/{tag}', f'F_vol of a stream ({where}) is {Fv}, a fresh stream in the same state has {rF}')
+
+
+def flows_eq(sa, sb, multi):
+    return sa['flows'] == sb['flows'] if multi else bycas(sa['flows']) == bycas(sb['flows'])
+
+
+def apply_write(x, w, rec, tag):
+    """write one flow of x on the given basis through the given public route; the molar rows of x must hold exactly that (nothing else moves).
+    Returns the route tag, or None when the write raised."""
+    ch = x.chemicals; ids = ch.IDs; cas = ch.CASs
+    multi = isinstance(x, tmo.MultiStream)
+    phs = tuple(x.phases) if multi else (x.phase,)
+    r = w['ph'] % len(phs); ph = phs[r]; j = w['i'] % len(ids); i = ids[j]
+    basis = w['basis']; via = w['via'] if (multi or w['via'] != 'view') else 'indexer'
+    v = float(w['v'])
+    if basis == 'vol':
+        try: per = unit_volume(x, ph, i)
+        except Exception: per = None
+        if not per: basis = 'mass'       # no molar volume model for this chemical in this phase: write on the mass basis instead
+    if via == 'view':
+        Lx = phase_ledger(x)
+        if any(float(x[p_].imol[q]) != Lx.get((p_, c), 0.0) for p_ in phs for q, c in zip(ids, cas)) or (basis == 'vol' and any(x[p_].T != x.T or x[p_].P != x.P for p_ in phs)):
+            # the phase views of this stream are not views of its phases (reported by read-view-mol / read-view-TP): a write through one of them decides nothing more
+            rec.hit('basis:write-through-unbound-view-not-judged'); via = 'indexer'
+    wtag = f'{basis}-{via}'
+    L0 = phase_ledger(x)
+    key = (ph, i) if multi else i
+    try:
+        if via == 'indexer': getattr(x, 'i' + basis)[key] = v
+        elif via == 'view': getattr(x[ph], 'i' + basis)[i] = v
+        elif via == 'set_flow': x.set_flow(v, UNITS[basis], key)
+        else:
+            data = getattr(x, 'i' + basis).data
+            if multi: data[r, j] = v
+            else: data[j] = v
+    except Exception as e:
+        rec.exception('basis', e, what=f'writing a flow ({wtag}; {tag}) raised {type(e).__name__}: {str(e)[:150]}'); return None
+    L1 = phase_ledger(x)
+    exp = dict(L0)
+    exp[(ph, cas[j])] = v if basis == 'mol' else (v / float(ch.MW[j]) if basis == 'mass' else v / per)
+    rel = 0.0 if basis == 'mol' else (1e-12 if basis == 'mass' else 1e-9)
+    bad = [(q, L1.get(q, 0.0), exp.get(q, 0.0)) for q in sorted(set(exp) | set(L1)) if not close(L1.get(q, 0.0), exp.get(q, 0.0), rel)]
+    rec.check(not bad, 'basis', f'write-lost/{wtag}/{tag}', f'a flow written on the {basis} basis ({via}; {tag}) is not what the stream then holds (key, molar row, expected): {bad[:4]}')
+    rec.hit('basis:write/' + wtag)
+    return wtag
+
+
+def write_round(objs, rel, writes, rec, tag, tp_shared=False):
+    """objs = {'a': x, 'b': y}; rel = 'independent' | 'shared' (flows). Every write must land in its stream; the other stream moves exactly when the flows are shared."""
+    for n, w in enumerate(writes):
+        x = objs[w['on']]; y = objs['b' if w['on'] == 'a' else 'a']
+        multi = isinstance(y, tmo.MultiStream)
+        before = snap(y)
+        wtag = apply_write(x, w, rec, tag)
+        if wtag is None: return False
+        check_bases(x, rec, 'after-write', tag)
+        after = snap(y)
+        if rel == 'shared':
+            rec.check(flows_eq(after, snap(x), multi and isinstance(x, tmo.MultiStream)), 'basis', f'shared-write-not-seen/{wtag}/{tag}', f'a flow written on one stream ({wtag}) is not seen by the stream sharing its flows ({tag}): {snap(x)["flows"]} vs {after["flows"]}')
+        else:
+            same = flows_eq(after, before, multi) if tp_shared else same_snap(after, before)
+            rec.check(same, 'basis', f'write-leaked/{wtag}/{tag}', f'a flow written on one stream ({wtag}) changed an independent stream ({tag}): {before} -> {after}')
+        if rel == 'shared' or n == 0: check_bases(y, rec, 'other-after-write', tag, vol=(rel == 'shared'))
+    return True
+
+
+def unpickled_snap(so, sr):
+    """a one-phase MultiStream comes back from set_data / pickle as a Stream by the library's own phases-setter rule: the class of a one-phase multi-stream is not judged."""
+    if so['cls'] == 'MultiStream' and sr['cls'] == 'Stream' and len(so['phases']) == 1: return dict(sr, cls='MultiStream')
+    return sr
+
+
+def run_basis(case, rec):
+    sc = case['sc']
+    rec.hit('basis:' + sc)
+    if sc == 'xfer':
+        t = build_b(case['tgt']); srcs = [build_b(d) for d in case['srcs']]
+        if case['tgt'].get('units') or any(d.get('units') for d in case['srcs']): rec.hit('basis:ctor-units')
+        warm(t, case['warm_t'], rec)
+        for s in srcs: warm(s, case['warm_s'], rec)
+        cached = bool(case['tgt'].get('units')) or any(f in CACHING for f in case['warm_t'])
+        labels = set(''.join(d.get('phases') or d.get('phase') for d in [case['tgt']] + case['srcs']))
+        # both cases of one letter among the phase labels of the history ('s' and 'S', 'l' and 'L'): the label fall-back of the phase index is in play
+        variant = '/case-variant-labels' if any(q.lower() in labels and q.upper() in labels for q in labels) else ''
+        for n, rnd in enumerate(case['rounds']):
+            s = srcs[rnd['src']]; op = rnd['op']
+            ks, kt = kind_of(s), kind_of(t)
+            same_pkg = s.chemicals is t.chemicals
+            same_ph = ks != 'S' and kt != 'S' and tuple(s.phases) == tuple(t.phases)
+            if op == 'copy_flow' and not (same_pkg and ((ks == 'S' and kt == 'S') or same_ph)): op = 'copy_like'
+            if op == 'imol.copy_like' and kt == 'S' and ks != 'S': op = 'copy_like'
+            if op == 'imass.copy_like' and not (same_pkg and ((ks == 'S' and kt == 'S') or same_ph)): op = 'set_data'
+            tag = f'{op}/{ks}-to-{kt}/' + ('same' if same_pkg else 'foreign') + '-package' + ('/same-phases' if same_ph else '') + variant
+            ss = snap(s)
+            try:
+                if op == 'copy_like': t.copy_like(s)
+                elif op == 'set_data': t.set_data(s.get_data())
+                elif op == 'copy_flow': t.copy_flow(s)
+                elif op == 'imol.copy_like': t.imol.copy_like(s.imol)
+                else: t.imass.copy_like(s.imass)
+            except Exception as e:
+                rec.exception('basis', e, what=f'{tag} raised {type(e).__name__}: {str(e)[:150]}'); return
+            rec.hit('basis:op/' + op)
+            if same_ph and same_pkg and ks == 'M' and (cached or n): rec.hit('basis:same-layout-cached-target')
+            try:
+                ts = snap(t)
+            except Exception as e:
+                rec.exception('basis', e, what=f'reading the target after {tag} raised {type(e).__name__}: {str(e)[:150]}'); return
+            if op == 'copy_flow':
+                exp = ss['flows'] if kt != 'S' else None
+                ok = ts['flows'] == exp if kt != 'S' else bycas(ts['flows']) == bycas(ss['flows'])
+            else:
+                exp = ss['flows'] if op == 'set_data' else expected_after_copy_like(ss, t)
+                rel = 1e-12 if op == 'imass.copy_like' else 0.0
+                ok = all(close(ts['flows'].get(q, 0.0), exp.get(q, 0.0), rel) for q in sorted(set(exp) | set(ts['flows'])))
+            rec.check(ok, 'basis', f'flows/{tag}', f'{tag}: the target holds {ts["flows"]}, the source {ss["flows"]}')
+            if op in ('copy_like', 'set_data'):
+                rec.check(ts['T'] == ss['T'] and ts['P'] == ss['P'], 'basis', f'TP/{tag}', f'{tag}: target T, P = {ts["T"]}, {ts["P"]}, source {ss["T"]}, {ss["P"]}')
+            if op == 'set_data':
+                rec.check(ts['phases'] == ss['phases'], 'basis', f'phases/{tag}', f'{tag}: target phases {ts["phases"]}, source {ss["phases"]}')
+            rec.check(same_snap(snap(s), ss), 'basis', f'source-changed/{tag}', f'{tag} changed its source: {ss} -> {snap(s)}')
+            check_bases(t, rec, 'after-op', tag)
+            if n == 0: check_bases(s, rec, 'source-after-op', tag, vol=False)
+            if not write_round({'a': t, 'b': s}, 'independent', rnd['writes'], rec, tag): return
+            warm(t, rnd['rewarm'], rec)
+            e = stream_invariant(t); rec.check(e is None, 'invariant', 'basis', f'sparse invariant: {e}')
+            if len(ss['flows']) >= 2: rec.mark_nontrivial(case_hash(case))
+        tail = case.get('tail')
+        if tail:
+            rec.hit('basis:tail')
+            st = snap(t)
+            try:
+                b = t.copy() if tail == 'copy' else _rt(t)
+            except Exception as e:
+                rec.exception('basis', e, what=f'{tail} of the target of a transfer raised {type(e).__name__}: {str(e)[:150]}'); return
+            tag = f'{tail}-after-transfer/{kind_of(t)}' + variant
+            rec.check(same_snap(st, unpickled_snap(st, snap(b))), 'basis', f'state/{tag}', f'{tail} differs from its original: {st} vs {snap(b)}')
+            check_bases(b, rec, 'after-op', tag)
+            write_round({'a': b, 'b': t}, 'independent', case['tail_writes'], rec, tag)
+    elif sc == 'dup':
+        a = build_b(case['a'])
+        if case['a'].get('units'): rec.hit('basis:ctor-units')
+        warm(a, case['warm_a'], rec)
+        op = case['op']; ka = kind_of(a)
+        tag = f'{op}/{ka}'
+        sa = snap(a)
+        try:
+            if op == 'copy': b = a.copy()
+            elif op == 'copy.copy': b = _copy.copy(a)
+            elif op == 'pickle': b = _rt(a)
+            elif op == 'proxy': b = a.proxy()
+            else: b = a.flow_proxy()
+        except Exception as e:
+            rec.exception('basis', e, what=f'{tag} raised {type(e).__name__}: {str(e)[:150]}'); return
+        rec.hit('basis:dup/' + op)
+        rec.check(b is not a and same_snap(sa, unpickled_snap(sa, snap(b))), 'basis', f'state/{tag}', f'{op} differs from its original: {sa} vs {snap(b)}')
+        rec.check(same_snap(snap(a), sa), 'basis', f'source-changed/{tag}', f'{op} changed its original')
+        warm(b, case['warm_b'], rec)
+        check_bases(a, rec, 'source-after-op', tag)
+        check_bases(b, rec, 'after-op', tag)
+        rel = 'shared' if op in ('proxy', 'flow_proxy') else 'independent'
+        write_round({'a': a, 'b': b}, rel, case['writes'], rec, tag, tp_shared=(op == 'proxy'))
+        if len(sa['flows']) >= 2: rec.mark_nontrivial(case_hash(case))
+    else:   # link
+        a = build_b(case['a']); b = build_b(case['b']); d = build_b(case['d'])
+        multi = isinstance(a, tmo.MultiStream)
+        warm(a, case['warm_a'], rec); warm(b, case['warm_b'], rec)
+        f = case['flags']
+        tag = 'link/' + ('M' if multi else 'S') + '/' + ''.join('FPT'[i] if x else '-' for i, x in enumerate(f))
+        sa = snap(a)
+        try:
+            b.link_with(a, flow=f[0], phase=f[1], TP=f[2])
+        except Exception as e:
+            rec.exception('basis', e, what=f'{tag} raised {type(e).__name__}: {str(e)[:150]}'); return
+        rel = 'shared' if f[0] else 'independent'
+        if f[0]: rec.check(flows_eq(snap(b), sa, multi), 'basis', f'flows/{tag}', f'link_with(flow=True): the linking stream holds {snap(b)["flows"]}, the other {sa["flows"]}')
+        rec.check(same_snap(snap(a), sa), 'basis', f'source-changed/{tag}', 'link_with changed the stream linked to')
+        check_bases(a, rec, 'source-after-op', tag)
+        check_bases(b, rec, 'after-op', tag)
+        objs = {'a': a, 'b': b}
+        if not write_round(objs, rel, case['writes'], rec, tag, tp_shared=True): return
+        mid = case.get('mid')
+        if mid:
+            # conditions of a third stream copied onto one side of the link
+            x = objs[mid]; y = objs['b' if mid == 'a' else 'a']
+            mtag = 'copy_like-onto-linked/' + tag[5:]
+            by = snap(y); sd = snap(d)
+            try:
+                x.copy_like(d)
+            except Exception as e:
+                rec.exception('basis', e, what=f'{mtag} raised {type(e).__name__}: {str(e)[:150]}'); return
+            rec.hit('basis:link/mid-copy_like')
+            rec.check(flows_eq(snap(x), sd, multi), 'basis', f'flows/{mtag}', f'copy_like onto a linked stream: target {snap(x)["flows"]}, source {sd["flows"]}')
+            if f[0]: rec.check(flows_eq(snap(y), sd, multi), 'basis', f'shared-write-not-seen/copy_like/{mtag}', 'copy_like onto one side of a flow link is not seen by the other side')
+            else: rec.check(flows_eq(snap(y), by, multi), 'basis', f'write-leaked/copy_like/{mtag}', 'copy_like onto one side of a link that does not share flows changed the flows of the other side')
+            check_bases(x, rec, 'after-op', mtag); check_bases(y, rec, 'other-after-op', mtag)
+        who = case['unlink']
+        utag = 'unlink/' + tag[5:] + ('/linking-side' if who == 'b' else '/linked-to-side')
+        before = {q: snap(objs[q]) for q in 'ab'}
+        try:
+            objs[who].unlink()
+        except Exception as e:
+            rec.exception('basis', e, what=f'{utag} raised {type(e).__name__}: {str(e)[:150]}'); return
+        rec.hit('basis:link/unlink')
+        for q in 'ab':
+            rec.check(same_snap(snap(objs[q]), before[q]), 'basis', f'state/{utag}', f'unlink changed the values of a stream: {before[q]} -> {snap(objs[q])}')
+            check_bases(objs[q], rec, 'after-op', utag)
+        # after unlink of either side nothing is shared any more
+        write_round(objs, 'independent', case['writes2'], rec, utag)
+        if len(sa['flows']) >= 2: rec.mark_nontrivial(case_hash(case))
+    rec.hit('basis')
+
+
+def gen_warm(rng, p_none=0.2):
+    if rng.random() < p_none: return []
+    return rng.sample(WARMS, rng.randrange(1, 4))
+
+
+def gen_write(rng, on=None):
+    return {'on': on or rng.choice('ab'), 'basis': rng.choice(['mass', 'mass', 'mass', 'vol', 'vol', 'mol']), 'via': rng.choice(['indexer', 'indexer', 'view', 'set_flow', 'data']),
+            'i': rng.randrange(5), 'ph': rng.randrange(4), 'v': 0.0 if rng.random() < 0.12 else round(10 ** rng.uniform(-2, 3), 4)}
+
+
+def with_units(rng, d, p=0.25):
+    if rng.random() < p: d['units'] = 'kg/hr'
+    return d
+
+
+def gen_case3(rng):
+    sc = rng.choices(['xfer', 'dup', 'link'], [6, 2, 3])[0]
+    if sc == 'xfer':
+        sk = rng.choice(['S', 'M', 'M', 'M1']); spkg = rng.choice([0, 0, 0, 1, 2])
+        src = gen_stream(rng, spkg, 'M', phases=rng.choice(PH)) if sk == 'M1' else gen_stream(rng, spkg, sk)
+        sph = src['phases'] if src['kind'] == 'M' else src['phase']
+        src2 = gen_stream(rng, spkg, src['kind'], phases=sph if rng.random() < 0.6 else (rng.choice(PH) if sk != 'M' else None))
+        tk = rng.choice('SMM'); tpkg = spkg if (spkg != 2 and rng.random() < 0.7) else rng.choice([0, 1])
+        r = rng.random()
+        if tk == 'S': tph = sph[0] if r < 0.6 else None
+        elif len(sph) >= 2 and r < 0.6: tph = sph
+        elif r < 0.8: tph = (sph + ''.join(p for p in rng.sample(list(PH), 2) if p not in sph))[:max(2, len(sph) + 1)]
+        else: tph = None
+        tgt = gen_stream(rng, tpkg, tk, phases=tph, empty=rng.random() < 0.2)
+        rounds = []
+        for _ in range(rng.randrange(1, 4)):
+            rounds.append({'op': rng.choice(['copy_like'] * 4 + ['set_data'] * 2 + ['copy_flow', 'imol.copy_like', 'imass.copy_like']), 'src': rng.randrange(2),
+                           'writes': [gen_write(rng, rng.choice('aaab')) for _ in range(rng.randrange(0, 3))], 'rewarm': gen_warm(rng, 0.6)})
+        tail = rng.choice([None, None, None, 'copy', 'copy', 'pickle'])
+        return {'t': 'basis', 'sc': sc, 'tgt': with_units(rng, tgt), 'srcs': [with_units(rng, src, 0.15), src2], 'warm_t': gen_warm(rng), 'warm_s': gen_warm(rng, 0.5), 'rounds': rounds,
+                'tail': tail, 'tail_writes': [gen_write(rng) for _ in range(rng.randrange(1, 3))] if tail else []}
+    if sc == 'dup':
+        k = rng.choice(['S', 'M', 'M', 'M1'])
+        a = gen_stream(rng, rng.choice([0, 0, 1]), 'M', phases=rng.choice(PH)) if k == 'M1' else gen_stream(rng, rng.choice([0, 0, 1]), k)
+        return {'t': 'basis', 'sc': sc, 'a': with_units(rng, a), 'warm_a': gen_warm(rng, 0.1), 'op': rng.choice(['copy', 'copy', 'copy.copy', 'pickle', 'pickle', 'proxy', 'flow_proxy']),
+                'warm_b': gen_warm(rng, 0.4), 'writes': [gen_write(rng) for _ in range(rng.randrange(1, 5))]}
+    k = rng.choice('SMM'); phs = ''.join(rng.sample(list(PH), rng.randrange(2, 4))) if k == 'M' else None
+    return {'t': 'basis', 'sc': sc, 'a': with_units(rng, gen_stream(rng, 0, k, phases=phs)), 'b': with_units(rng, gen_stream(rng, 0, k, phases=phs)), 'd': gen_stream(rng, 0, k, phases=phs),
+            'warm_a': gen_warm(rng), 'warm_b': gen_warm(rng, 0.1), 'flags': [rng.random() < 0.7, rng.random() < 0.6, rng.random() < 0.6],
+            'writes': [gen_write(rng) for _ in range(rng.randrange(0, 3))], 'mid': rng.choice([None, 'a', 'b']), 'unlink': rng.choice('ab'),
+            'writes2': [gen_write(rng) for _ in range(rng.randrange(1, 3))]}
+
+
 RUNNERS = {'copy': run_copy, 'copy_like': run_copy_like, 'link': run_link, 'pickle': run_pickle,
-           'linkseq': run_linkseq, 'copy2': run_copy2, 'copyflow': run_copyflow, 'linkkinds': run_linkkinds, 'pickle2': run_pickle2, 'copy_like2': run_copy_like2}
+           'linkseq': run_linkseq, 'copy2': run_copy2, 'copyflow': run_copyflow, 'linkkinds': run_linkkinds, 'pickle2': run_pickle2, 'copy_like2': run_copy_like2, 'basis': run_basis}
 
 
 def run_case(case, rec):
@@ -1253,3 +1683,13 @@ def run(rec, rng, tier, shard, nshards):
             pk += 1
             if pk > pk_max: continue
         run_case(case, rec)
+    # third stream of cases (flows on every basis), drawn after the second
+    n3 = 800 if tier == 'quick' else 8000
+    pk = 0; pk_max = 250      # same bound on unpickled property packages as above (the case is still drawn)
+    for i in range(n3):
+        case = gen_case3(rng)
+        if case.get('op') == 'pickle' or case.get('tail') == 'pickle':
+            pk += 1
+            if pk > pk_max: continue
+        run_case(case, rec)
+        if i % 401 == 0: rec.sample(case)
